@@ -383,5 +383,7 @@ def run(ctx):
         from . import c14 as _c14
         _c14.env_table(ctx, "R12.5")
         _c14.origin_table(ctx, "R12.5")
+        from . import c03 as _c03o
+        _c03o.caller_keeps_order(ctx, "R12.5")
     except Skip:
         pass
